@@ -88,7 +88,18 @@ def slot_insertion(P, R):
         if s.ev['k'] == 'store' and s.ev['lhs'].get('k') == 'idx' and on_path(s.ev['lhs'], 'vec') and is_var(s.ev.get('rhs')):
             stores.append(s)
             srv = s.ev['rhs']['name']
-    stores += [s for s in f.calls('iauth_xquery_services_append')]
+    apps = [s for s in f.calls('iauth_xquery_services_append')]
+    # a slot released by the sweep is handed out again before the table grows: slot numbers index the 32-bit client
+    # masks, so they must stay bounded by the number of live services, not by the number ever configured
+    if apps:
+        R.ob('C17.MPT.5', bool(stores), apps[0], 'a new service is put into an empty slot when there is one; the table only grows when every slot is taken', key='slot-reuse')
+        for a in apps:
+            gs = f.guards(a.bid)
+            okg = any(is_var(g[0]) and g[1] in ('==', '>=') and on_path(g[2], 'used') for g in gs) or any(on_path(g[0], 'used') and is_var(g[2]) and g[1] in ('==', '<=') for g in gs)
+            R.ob('C17.MPT.5', okg or not stores, a, 'the append happens only after the search for an empty slot ran through the whole table', key='append-after-search', nontrivial=False)
+    stores += apps
+    if srv is None and apps and is_var(apps[0].ev['args'][1]):
+        srv = apps[0].ev['args'][1]['name']
     if srv is None:
         raise AnalysisBroken('service insertion does not store into the table')
 
@@ -210,6 +221,29 @@ def rebuilds(P, R, H):
     R.floor('C17.MPT.3', 7)
 
 
+def foreign_state(P, R, H, rule='C17.MPT.6'):
+    """What a module compiles out of its section depends on its section only.  A value that the hook looks up in
+    another decision module's tables (e.g. a service's slot) is decided by that module's own reload, which may run
+    later in the same load or in a later one - nothing re-runs this hook then."""
+    n = 0
+    for unit, h in H.items():
+        if h is None:
+            continue
+        cl = P.closure([h], may=False)
+        for g in cl.values():
+            if g.unit == h.unit or not g.unit.startswith('modules/') or g.unit == 'modules/iauth_misc.c':
+                continue
+            reads = set()
+            for t in g.sites():
+                for ex in rules.event_exprs(t.ev):
+                    for x in walk(ex):
+                        if x.get('k') == 'var' and x.get('sc') in ('file_static', 'global') and x.get('t', '') and not x.get('t', '').startswith('struct log_type'):
+                            reads.add(x['name'])
+            n += 1
+            R.ob(rule, not reads, h, 'the %s section hook compiles its cache without consulting another module\'s state (calls %s in %s, which reads %s)' % (h.unit, g.name, g.unit, sorted(reads)), key='foreign:%s:%s' % (h.name, g.name))
+    R.ob(rule, True, P.need_fn('conf_read'), 'scanned the section hooks\' call closures for functions of other decision modules: %d found' % n, key='scan', nontrivial=False)
+
+
 def merge_delivery(P, R):
     """GRD.1: in the merge the object hook depends only on the membership flag, which is set on splice and on removal
     (the rule body is C15's notification rule; only its object/splice/removal instances are recorded here)."""
@@ -240,6 +274,7 @@ def run(P, R, tier):
     no_registration_in_hooks(P, R, H)
     slot_insertion(P, R)
     rebuilds(P, R, H)
+    foreign_state(P, R, H)
     merge_delivery(P, R)
     # the dropped-section branch must read the OLD present bit (shared with C15.GRD.3)
     import types
